@@ -466,3 +466,37 @@ def _inline_circular() -> Callable[[], None]:
         nz._inlinable = orig_inl
 
     return undo
+
+
+# ----------------------------------------------------------------------------------------------------------------
+# KF-unused-copy-repeated-head: remove_single_copies treats 'a(X,X) :- e(X,Y).' as a copy rule; replacing a(X,Y) by
+# the body atom loses the equality of the two arguments (or produces unsafe rules).  A stored expectation of
+# tests/test_unused.py ('b(X,X,A) :- a(X,_,f(A)). c(X*Z) :- b(X,X,Z).') pins the replacement for such heads.
+# ----------------------------------------------------------------------------------------------------------------
+@repair("unused-copy-repeated-head")
+def _unused_copy_repeated_head() -> Callable[[], None]:
+    import ngo.unused as un
+    from clingo.ast import ASTType, Sign
+    from ngo.utils.ast import is_predicate
+
+    orig = un.RuleDependency.get_rules_that_derive
+
+    class _Two(list):
+        pass
+
+    def patched(self, head):  # type: ignore[no-untyped-def]
+        rules = orig(self, head)
+        if len(rules) == 1:
+            hlit = rules[0].head
+            if is_predicate(hlit) and hlit.sign == Sign.NoSign:
+                args = list(hlit.atom.symbol.arguments)
+                if all(a.ast_type == ASTType.Variable for a in args) and len(set(args)) != len(args):
+                    return _Two([rules[0], rules[0]])  # not a single plain copy: remove_single_copies skips it
+        return rules
+
+    un.RuleDependency.get_rules_that_derive = patched
+
+    def undo() -> None:
+        un.RuleDependency.get_rules_that_derive = orig
+
+    return undo
